@@ -522,8 +522,10 @@ def gen_ops(g, n, names, c15=False):
         if used and g.random() < 0.6:
             u = useful(g.choice(used))
             q = g.random()
-            if q < 0.35:
+            if q < 0.32:
                 return u
+            if q < 0.38:
+                return g.choice([u + " ", " " + u, u + "\t"])      # a present name with a stray blank is another key
             if q < 0.7:
                 return "%s:%d" % (u, g.randint(1, 3))
             if q < 0.85:
@@ -571,8 +573,11 @@ def gen_ops(g, n, names, c15=False):
             ops.append(["del_idx", g.randint(-4, 4)])
         elif r < 0.87:
             ops.append(["pop", g.randint(-4, 4)])
-        elif r < 0.92:
+        elif r < 0.91:
             ops.append(["del_key", g.randrange(8)])
+        elif r < 0.93:
+            # reading part of the section (a slice shares the item objects with the section) between the edits
+            ops.append(["probe_slice", g.choice([None, 0, 1, 2, -2]), g.choice([None, 1, -1, 3]), g.choice([None, 1, -1, 2])])
         else:
             ops.append(["replace", g.randrange(8), g.choice(names), g.choice([False, False, True, "ix"])])
             used.append(ops[-1][2])
